@@ -80,6 +80,11 @@ def run(rep: Report, ctx: Any) -> str:
                       "uses as k the media-type parameter itself - not something computed from it, which would match other entries than "
                       "the ones the user wrote")
 
+    rep.rule("R16.7", "literal_enums changes the representation only: the property classes property_from_data (private helpers inlined, executed "
+                      "symbolically) constructs on the paths where the option is on and on the paths where it is off present the same interface "
+                      "to the templates that generate code around a property - the same set of exported macros in their property templates (callers "
+                      "test for a macro's presence and fall back to generic code when it is missing) and the same allowed parameter locations")
+
     cfgc = ix.cls("Config")
     cff = ix.cls("ConfigFile")
     fs = cfgc.methods.get("from_sources")
@@ -178,6 +183,7 @@ def run(rep: Report, ctx: Any) -> str:
     rep.floor("name_constructor_sites", n_pi, 12)
     _r163_media_types(rep, ix)
     _r166_override_key(rep, ix, cfgc)
+    _r167_switched_classes(rep, ix, ctx.jinja)
     # ---- R16.4 --------------------------------------------------------------------------------------------------------------
     _r164_tags(rep, ix, callers)
     _r164_builder(rep, ix)
@@ -577,6 +583,88 @@ def _r166_override_key(rep: Report, ix: Any, cfgc: Any) -> None:
               f"content_type_overrides is consulted with {wrong[:3]} instead of the media type as the document spells it: an override whose key "
               "differs from that computed form is never found, and the media type is classified by its own name", where(f, f.node),
               lhs=wrong or key_param, rhs=f"<config>.{_OVERRIDES} looked up by `{key_param}` itself")
+
+
+# ---- R16.7: the classes an option switches between ----------------------------------------------------------------------------------
+
+def _r167_switched_classes(rep: Report, ix: Any, jx: Any) -> None:
+    """`literal_enums` makes property_from_data build another property class for the same schema.  Everything the generated code does with a
+    property goes through the macros of the class's template - and the templates around it (endpoint, model) ask whether a macro exists
+    (`if <template>.transform_header`) and emit generic code when it does not - and through the locations the class may appear in.  The
+    option therefore changes behaviour, not just representation, as soon as the two classes differ in which macros their templates define
+    or in where they are allowed.  The classes are found by following the option: the property classes constructed on paths whose
+    condition forces `<config>.literal_enums` true / false."""
+    option = "literal_enums"
+    pfd = ix.func("parser.properties.property_from_data")
+    classes = {c.name: c for c in ix.property_classes()}
+
+    def made(c: ast.Call) -> list[tuple[tuple, str]]:
+        """(condition, class) for each property class the call constructs: `C(...)` / `C.build(...)`, C possibly chosen by a conditional"""
+        tgt = c.func.value if isinstance(c.func, ast.Attribute) and c.func.attr == "build" else c.func
+        return [(tuple(ac), av.id) for ac, av in alternatives(tgt) if isinstance(av, ast.Name) and av.id in classes]
+
+    sx = SymExec(ix, watch=lambda c: True)
+    sx.run(pfd)
+    _expand_helper_calls(sx)
+    sides: dict[bool, set[str]] = {True: set(), False: set()}
+    for conds, call, _ in sx.hits:
+        for ac, cname in made(call):
+            # the tests that mention the option, and those that share an atom with them, decide; leaving the others out only weakens
+            # the premise
+            allc = [(c, frozenset(_atoms_of(c[0]))) for c in tuple(conds) + ac]
+            mine = {a for c, ats in allc for a in ats if a[1].rsplit(".", 1)[-1] == option}
+            while True:
+                more = {a for c, ats in allc if ats & mine for a in ats} - mine
+                if not more or len(mine | more) > 12:
+                    break
+                mine |= more
+            rel = tuple(c for c, ats in allc if ats and ats <= mine)
+            if not rel or not consistent(rel):
+                continue
+            atoms: list = []
+            for e, _p in rel:
+                _atoms(e, atoms)
+            for a in atoms:
+                if a[0] == "truthy" and a[1].rsplit(".", 1)[-1] == option:
+                    for val in (True, False):
+                        if implies(rel, a, val):
+                            sides[val].add(cname)
+    on, off = sides[True] - sides[False], sides[False] - sides[True]
+    rep.require(on and off, f"the property classes property_from_data constructs when <config>.{option} is on / off")
+    pairs = [(a, b) for a in sorted(on) for b in sorted(off)]
+    rep.floor("literal_enums_class_pairs", len(pairs), 1)
+
+    def template_of(name: str) -> Any:
+        tv = ix.find_classvar(classes[name], "template")
+        tname = ix.const_str(tv[0].module, tv[1]) if tv else None
+        ti = jx.templates.get("property_templates/" + (tname or ""))
+        rep.require(ti is not None, f"the property template of {name}")
+        return ti
+
+    def locations_of(name: str) -> set[str] | None:
+        al = ix.find_classvar(classes[name], "_allowed_locations")
+        if al is None or not isinstance(al[1], (ast.Set, ast.List, ast.Tuple)):
+            return None
+        return {norm(x).rsplit(".", 1)[-1] for x in al[1].elts}
+
+    for a, b in pairs:
+        # what a template offers to the templates that import it: Jinja exports the top-level names that do not start with `_`
+        ma, mb = (_exported_names(template_of(x).tree) for x in (a, b))
+        rep.check(ma == mb, "R16.7", f"{option}::{b}|{a}::same-template-macros",
+                  f"the templates of {a} ({option} on) and {b} (off) do not define the same macros: for {sorted(ma ^ mb)} the surrounding "
+                  f"templates emit the class's own code under one setting and the generic fallback under the other - the option changes behaviour",
+                  where=f"{PKG}/templates/{template_of(a if mb - ma else b).name}", lhs=sorted(ma), rhs=sorted(mb))
+        la, lb = locations_of(a), locations_of(b)
+        rep.require(la is not None and lb is not None, f"_allowed_locations of {a} and {b} as a display of locations")
+        rep.check(la == lb, "R16.7", f"{option}::{b}|{a}::same-allowed-locations",
+                  f"{a} ({option} on) and {b} (off) are not allowed in the same parameter locations ({sorted(la ^ lb)}): a document accepted under "
+                  "one setting is rejected under the other", where=f"{PKG}/parser/properties", lhs=sorted(la), rhs=sorted(lb))
+
+
+def _exported_names(tree: Any) -> set[str]:
+    """the macros a template module offers to the templates that import it: those defined at the top level of the file whose name does
+    not start with `_` (Jinja exports nothing else; a macro nested in another one or named `_x` is the file's own business)"""
+    return {n.name for n in tree.body if type(n).__name__ == "Macro" and not n.name.startswith("_")}
 
 
 # ---- R16.4: tags --------------------------------------------------------------------------------------------------------------------
@@ -1404,6 +1492,12 @@ def _atoms(e: ast.AST, out: list) -> None:
         a = _leaf(e)[0]
         if a not in out:
             out.append(a)
+
+
+def _atoms_of(e: ast.AST) -> list:
+    out: list = []
+    _atoms(e, out)
+    return out
 
 
 def _holds(e: ast.AST, asg: dict) -> bool:
